@@ -25,5 +25,9 @@ CLAIMED = {
     "C15": dict(level="model_checking",
                 text=_L_TEXT + "; the Iterator option space of the property's quantifier (0-2 inclusive upper bounds related or not, one exclusive, unknown ones, every lower bound in range, every amount 0..size+1) is enumerated by TLC per reachable log",
                 note=_L_NOTE, technique=_L_TECH),
+    "C19": dict(level="model_checking",
+                text="TLC checks the order laws (strict total order of the hash-tiebreak ordering, LWW = HASH on distinct clocks, clock comparison antisymmetric/transitive, respect of clock time, FWW = -LWW, Sort is an ordered permutation) on the transcribed comparators over the complete cube of (time, id, hash) rank triples; the real functions are then evaluated on concrete entries order-isomorphic to every triple of rank triples (several palettes of boundary and negative values) and TLC validates the observed sign table against the same laws (Layer P) and against the transcription (Layer M); sorting.Sort likewise, incl. insertion-sort tie behaviour",
+                note="complete cube for K=3 (27^3 triples) plus K=2 cubes for 13 concrete value palettes; lists up to 12 elements; concrete values are samples of each rank class",
+                technique="TLA+ spec Sorting.tla (laws over LogOps comparators) model-checked by TLC; observed comparison/sort tables of the real functions validated by TLC against Trace_Sorting.tla"),
     "C16": dict(level="model_checking", text=_L_TEXT + "; every size bound 0..beyond the merged size", note=_L_NOTE, technique=_L_TECH),
 }
